@@ -1702,6 +1702,17 @@ theorem c07_sched_blind_register_silences :
     blind.slot .U = .requested ∧ (process blind (.proto (.fresh .U) .member .m3)).2.delivered = blind.delivered := by
   decide
 
+/-- `treeStorage.Register` writes the empty slot only when the id has no entry ("never drop a tree that has been set in
+the meantime"): the `registerAsk` of the schedule model; its blind variant is `c07_sched_blind_register_silences` -/
+theorem c07_shape_treeStorage_Register_full :
+    Shapes.treestorage_treeStorage_Register_full =
+      ["ts.Lock", "assign:_,ok:=ts.trees[id]", "if:!ok", "assign:ts.trees[id]=nil", "ts.Unlock"] := rfl
+
+/-- `nodeDone`: the whole of `nodeDelete` (the protocol's `Shutdown` included) runs inside the instance-list region — the
+window op `lockrace` widens -/
+theorem c07_shape_Overlay_nodeDone :
+    Shapes.overlay_Overlay_nodeDone = ["instancesLock.Lock", "o.nodeDelete", "instancesLock.Unlock"] := rfl
+
 namespace LockOrder
 open Shapes
 
